@@ -266,6 +266,16 @@ func zoneHandler(args []string) (string, []string) {
 		jd := int(nums[0])
 		iv := interval.IntervalByJd(jd, loc)
 		next := interval.IntervalByJd(jd+1, loc)
+		// the interval handed out for day jd must still be what it was after the next question, and must
+		// not change what the function answers when the caller changes it
+		if iv != nil && next != nil {
+			saved := *iv
+			next.Start, next.End = next.Start+7, next.End-7
+			if again := interval.IntervalByJd(jd, loc); again == nil || *again != saved || *iv != saved {
+				ps.add("C11", "%s op=dayiv-stability jd=%d the interval of the day is [%d,%d) at first, later [%d,%d) (results share memory or depend on earlier questions)", tag, jd, saved.Start, saved.End, iv.Start, iv.End)
+			}
+			next = interval.IntervalByJd(jd+1, loc)
+		}
 		class := "class=regular"
 		if !z.dayRegular(jd) {
 			class = "class=irregular-midnight"
